@@ -1,2 +1,159 @@
-From Coq Require Import List String.
-From EKW Require Import Low.Builders Low.BuildersCheck.
+(* C19 -- a job accepted by the builder is well formed and carries the values given.
+   Model: Low/Builders.v (TaskBuilder.from_callable / with_values, JobBuilder.with_node /
+   with_edge / build of src/cascade/low/builders.py, fix-carrying worktree).
+   Every theorem holds for ALL interpretations PyT / evalty / isinst / issub of Python's
+   eval, isinstance and issubclass, all node and edge lists, all signatures and values. *)
+From Coq Require Import List String Bool ZArith NArith.
+From EKW Require Import Low.Builders Low.BuildersProofs Low.BuildersCheck.
+Import ListNotations.
+Open Scope string_scope.
+Open Scope list_scope.
+
+(* (1) When build accepts, the job is exactly the nodes and edges given, every edge starts
+   at an existing output of an existing task and ends at an existing task and, for keyword
+   edges, an existing parameter of compatible declared type (edge_wf); every static keyword
+   value sits on an existing parameter whose declared type it fits (statics_wf). *)
+Theorem C19_accepted_job_wellformed :
+  forall PyT evalty isinst issub (b : builder) (j : job),
+    build PyT evalty isinst issub b = Ok (inr j) ->
+    jtasks j = nodes b /\ jedges j = edges b /\
+    Forall (edge_wf PyT evalty issub (jtasks j)) (jedges j) /\
+    statics_wf PyT evalty isinst (jtasks j).
+Proof. exact build_ok_wellformed. Qed.
+
+(* (2) Otherwise the problems are returned: whenever build returns, it returns a job exactly
+   when every static value and every edge is well formed, and a returned list of problems is
+   never empty. *)
+Theorem C19_problems_returned_otherwise :
+  forall PyT evalty isinst issub (b : builder) r,
+    build PyT evalty isinst issub b = Ok r ->
+    ((exists j, r = inr j) <->
+       (statics_wf PyT evalty isinst (nodes b) /\ Forall (edge_wf PyT evalty issub (nodes b)) (edges b))) /\
+    (forall errs, r = inl errs -> errs <> []).
+Proof. exact build_rejects_iff. Qed.
+
+(* (3) build never raises -- dangling sources, outputs, sinks, parameters, unknown static
+   names included -- as long as every declared type is "Any" or resolvable by eval (the
+   property's domain: builtin or absent annotations). *)
+Theorem C19_build_never_raises :
+  forall PyT evalty isinst issub (b : builder),
+    types_known PyT evalty (nodes b) -> exists r, build PyT evalty isinst issub b = Ok r.
+Proof. exact build_total. Qed.
+
+(* (4) with_values: positional value i is stored under str(i), keyword value under its name,
+   every other position / name and the definition are untouched. *)
+Theorem C19_values_at_given_positions_and_names :
+  forall (t : task) (args : list value) (kwargs : list (string * value)),
+    NoDup (map fst kwargs) ->
+    let t' := with_values t args kwargs in
+    tdf t' = tdf t /\
+    (forall i v, nth_error args i = Some v -> lookup (str_of_nat i) (sps t') = Some v) /\
+    (forall s, (forall i, i < List.length args -> s <> str_of_nat i) -> lookup s (sps t') = lookup s (sps t)) /\
+    (forall k v, In (k, v) kwargs -> lookup k (skw t') = Some v) /\
+    (forall k, ~ In k (map fst kwargs) -> lookup k (skw t') = lookup k (skw t)).
+Proof. exact with_values_spec. Qed.
+
+(* (5) the job carries the task bound under a name (hence, by (4), its values) whatever
+   further operations follow that do not re-bind the name, and every edge ever added. *)
+Theorem C19_job_carries_bound_task :
+  forall PyT evalty isinst issub (b : builder) n t ops j,
+    forallb (fun o => negb (sets_name n o)) ops = true ->
+    build PyT evalty isinst issub (fold_left apply_op ops (with_node b n t)) = Ok (inr j) ->
+    lookup n (jtasks j) = Some t.
+Proof. exact job_carries_node. Qed.
+
+Theorem C19_job_carries_edge :
+  forall PyT evalty isinst issub (b : builder) s k i f ops j,
+    build PyT evalty isinst issub (fold_left apply_op ops (with_edge b s k i f)) = Ok (inr j) ->
+    In (E s f k i) (jedges j).
+Proof. exact job_carries_edge. Qed.
+
+(* (6) from_callable: the parameters of the task are exactly the parameters of the signature
+   that can be passed by keyword, with their declared types; one output "0". *)
+Theorem C19_signature_to_schema :
+  forall ps ret t,
+    NoDup (map pname ps) -> from_callable ps ret = Ok t ->
+    (forall n ty, lookup n (ischema (tdf t)) = Some ty <->
+       exists p, In p ps /\ kwable (pkd p) = true /\ pname p = n /\ type2str (pann p) = Ok ty) /\
+    (exists rt, type2str ret = Ok rt /\ oschema (tdf t) = [(DEFAULT_OUTPUT, rt)]) /\
+    sps t = [].
+Proof. exact from_callable_schema. Qed.
+
+(* (7) persistence in the model: deriving further builders never changes one that exists.
+   (Builders are values here, so this is structural; for the Python objects it is observed
+   by the harness on every generated tree, see ASSUMPTIONS in harness/c19.py.) *)
+Theorem C19_earlier_builders_unchanged :
+  forall s1 s2 bs bs',
+    run_tree bs (s1 ++ s2) = Some bs' ->
+    exists bs1, run_tree bs s1 = Some bs1 /\
+      forall i, i < List.length bs1 -> nth_error bs' i = nth_error bs1 i.
+Proof. exact tree_prefix_stable. Qed.
+
+(* ------------------------------------------------------------------ non-vacuity *)
+Definition ex_src : task := T (TD [] [("0", "bool"); ("1", "str")]) [] [].
+Definition ex_snk : task :=
+  with_values (T (TD [("x", "int"); ("y", "str")] [("0", "Any")]) [("y", V "str" 6)] [])
+              [V "float" 9; V "int" 1] [("y", V "str" 7)].
+Definition ex_good : builder :=
+  with_edge (with_edge (with_node (with_node empty_builder "a" ex_src) "b" ex_snk) "a" "b" (IntoKw "x") "0")
+            "a" "b" (IntoPs 0) "1".
+Definition ex_bad : builder :=
+  with_edge (with_edge ex_good "a" "ghost" (IntoKw "x") "0") "a" "b" (IntoKw "y") "0".
+
+(* (1): an accepted job with a keyword edge whose compatibility needs issubclass(bool, int),
+   a positional edge from a second output, and static values *)
+Example C19_accepted_job_wellformed_nonvacuous :
+  exists j, c_build ex_good = Ok (inr j) /\ List.length (jedges j) = 2 /\ List.length (jtasks j) = 2.
+Proof. eexists. split; [vm_compute; reflexivity|split; reflexivity]. Qed.
+
+(* (2): a description with a dangling sink and a type clash returns two problems *)
+Example C19_problems_returned_otherwise_nonvacuous :
+  c_build ex_bad = Ok (inl [PSinkTask "ghost"; PIncompat (E "a" "0" "b" (IntoKw "y"))]).
+Proof. vm_compute. reflexivity. Qed.
+
+(* (3): the hypothesis holds for that ill-formed description *)
+Example C19_build_never_raises_nonvacuous : types_known string c_evalty (nodes ex_bad).
+Proof.
+  intros n t Hin. cbn in Hin.
+  destruct Hin as [E|[E|[]]]; injection E as <- <-; split; intros k ty Hk; cbn in Hk;
+    repeat (destruct Hk as [E|Hk]; [injection E as <- <-; first [left; reflexivity|right; eexists; vm_compute; reflexivity]|]);
+    destruct Hk.
+Qed.
+
+(* (4): positions 0 and 1, a keyword overriding an earlier static *)
+Example C19_values_at_given_positions_and_names_nonvacuous :
+  NoDup (map fst [("y", V "str" 7)]) /\
+  lookup "0" (sps ex_snk) = Some (V "float" 9) /\ lookup "1" (sps ex_snk) = Some (V "int" 1) /\
+  lookup "y" (skw ex_snk) = Some (V "str" 7).
+Proof. split; [repeat constructor; cbn; tauto|vm_compute; auto]. Qed.
+
+(* (5): the accepted job above was built after two further operations *)
+Example C19_job_carries_bound_task_nonvacuous :
+  exists j, c_build (fold_left apply_op [OpEdge "a" "b" (IntoKw "x") "0"; OpEdge "a" "b" (IntoPs 0) "1"]
+                               (with_node (with_node empty_builder "a" ex_src) "b" ex_snk)) = Ok (inr j) /\
+            lookup "b" (jtasks j) = Some ex_snk /\ In (E "a" "0" "b" (IntoKw "x")) (jedges j).
+Proof. eexists. split; [vm_compute; reflexivity|split; [reflexivity|left; reflexivity]]. Qed.
+
+(* (6): def f(a, /, x: int, y="s", *args, z: "str" = 1, **kw) -> bool *)
+Example C19_signature_to_schema_nonvacuous :
+  from_callable [P "a" PosOnly AEmpty None; P "x" PosOrKw (AType "int") None; P "y" PosOrKw AEmpty (Some (V "str" 6));
+                 P "args" VarPos AEmpty None; P "z" KwOnly (AStr "str") (Some (V "int" 1)); P "kw" VarKw AEmpty None]
+                (AType "bool")
+  = Ok (T (TD [("x", "int"); ("y", "Any"); ("z", "str")] [("0", "bool")]) [("y", V "str" 6); ("z", V "int" 1)] []).
+Proof. vm_compute. reflexivity. Qed.
+
+(* (7): a tree with a branch *)
+Example C19_earlier_builders_unchanged_nonvacuous :
+  exists bs, run_tree [empty_builder] ([(0, OpNode "a" ex_src); (1, OpNode "b" ex_snk)] ++
+                                       [(1, OpEdge "a" "a" (IntoPs 0) "0"); (2, OpEdge "a" "b" (IntoKw "x") "0")]) = Some bs /\
+             List.length bs = 5.
+Proof. eexists. split; [vm_compute; reflexivity|reflexivity]. Qed.
+
+Print Assumptions C19_accepted_job_wellformed.
+Print Assumptions C19_problems_returned_otherwise.
+Print Assumptions C19_build_never_raises.
+Print Assumptions C19_values_at_given_positions_and_names.
+Print Assumptions C19_job_carries_bound_task.
+Print Assumptions C19_job_carries_edge.
+Print Assumptions C19_signature_to_schema.
+Print Assumptions C19_earlier_builders_unchanged.
